@@ -1890,7 +1890,10 @@ impl Block {
                                     && rebroadcast_tx.from[1].slip_type != SlipType::Bound
                                     && rebroadcast_tx.from[2].slip_type == SlipType::Bound
                                 {
-                                    let input_amount = rebroadcast_tx.from[1].amount;
+                                    // the input slip carries the unadjusted payout, recover
+                                    // the amount of the slip that is being rebroadcast
+                                    let input_amount =
+                                        rebroadcast_tx.from[1].amount / expected_atr_multiplier;
 
                                     //
                                     // Calculate the new output amount
@@ -1899,9 +1902,11 @@ impl Block {
                                         input_amount * adjusted_output_multiplier;
 
                                     //
-                                    // Update the ATR output slip
+                                    // Update the ATR output slip (and the input slip, so that
+                                    // no fee is implied)
                                     //
                                     rebroadcast_tx.to[1].amount = new_output_amount;
+                                    rebroadcast_tx.from[1].amount = new_output_amount;
 
                                     cv.total_payout_atr += rebroadcast_tx.to[1].amount;
                                     cv.total_payout_atr -= input_amount;
@@ -1909,17 +1914,22 @@ impl Block {
                                     //
                                     // Single‐slip ATR: payload is the only slip at index 0
                                     //
-                                    let input_amount = rebroadcast_tx.from[0].amount;
+                                    let input_amount =
+                                        rebroadcast_tx.from[0].amount / expected_atr_multiplier;
                                     let new_output_amount =
                                         input_amount * adjusted_output_multiplier;
                                     rebroadcast_tx.to[0].amount = new_output_amount;
+                                    rebroadcast_tx.from[0].amount = new_output_amount;
 
                                     cv.total_payout_atr += rebroadcast_tx.to[0].amount;
                                     cv.total_payout_atr -= input_amount;
                                 }
                             }
 
-                            cv.total_fees_atr = 0;
+                            // no rebroadcast fee is charged in this case, but the slips that
+                            // were too small to be rebroadcast are still collected as fees
+                            cv.total_fees_atr = cv.total_fees_paid_by_nonrebroadcast_atr_transactions;
+                            cv.total_fees_cumulative = cv.total_fees_new;
 
                             // the rebroadcast transactions have changed, so has their hash
                             cv.rebroadcast_hash = [0; 32];
